@@ -390,3 +390,78 @@ Proof.
   pose proof (mems_sub_footprint d Hl Hn Hi Hfam c s b (b ++ junk) base h1 h2 Hb Ha) as H. cbv zeta in H.
   destruct H as (A1 & A2 & A3 & _). cbv zeta. repeat split; assumption.
 Qed.
+
+(* ---- DIFOP: the decoder looks at the accepted DIFOP length only *)
+Section Difop.
+  Variable d : desc.
+  Hypothesis Hlay : difop_layout_ok d = true.
+  Hypothesis Hnn : 0 <= d_off_difop_rpm d /\ 0 <= d_off_difop_fov_start d /\ 0 <= d_off_difop_fov_end d /\ 0 <= d_off_difop_return_mode d /\
+                   0 <= d_off_difop_reversal d /\ 0 <= d_off_difop_sn d /\ 0 <= d_off_difop_mac d /\ 0 <= d_off_difop_top_ver d /\
+                   0 <= d_off_difop_bottom_ver d /\ 0 <= d_off_difop_vol12 d /\ 0 <= d_off_difop_vert d /\ 0 <= d_off_difop_horiz d /\
+                   0 <= d_off_difop_pitch_cali d /\ 0 <= d_laser_num d /\ 0 <= d_sn_len d <= 6.
+  Variables b b' : bytes.
+  Hypothesis Hag : agree (d_difop_len d) b b'.
+
+  Lemma cali_entry_agree vert i : d_family d = Mech -> 0 <= i < d_laser_num d -> cali_entry d b vert i = cali_entry d b' vert i.
+  Proof.
+    intros Hf Hi. pose proof Hlay as Hl. unfold difop_layout_ok in Hl. rewrite Hf in Hl.
+    unfold cali_entry, be24. destruct (d_cali d) eqn:Ec; destruct vert;
+      rewrite ?(agree_be16 (d_difop_len d) b b' _ Hag), ?(agree_u8 (d_difop_len d) b b' _ Hag) by lia; reflexivity.
+  Qed.
+
+  Lemma load_angles_agree : d_family d = Mech -> forall n i vs hs, 0 <= i -> i + Z.of_nat n <= d_laser_num d ->
+    load_angles d b i n vs hs = load_angles d b' i n vs hs.
+  Proof.
+    intros Hf. induction n as [|n IH]; intros i vs hs H0 H1; [reflexivity|].
+    cbn [load_angles]. rewrite (cali_entry_agree true i Hf), (cali_entry_agree false i Hf) by lia.
+    destruct (cali_entry d b' true i) as [vsign vval]. destruct (vsign =? 255); [reflexivity|].
+    destruct (negb (angle_check _)); [reflexivity|].
+    destruct (cali_entry d b' false i) as [hsign hval]. destruct (negb (angle_check _)); [reflexivity|].
+    apply IH; lia.
+  Qed.
+
+  Theorem difop_footprint with_parse s : decode_difop d with_parse s b = decode_difop d with_parse s b'.
+  Proof.
+    pose proof Hlay as Hl. unfold difop_layout_ok in Hl.
+    unfold decode_difop. destruct (d_family d) eqn:Hf.
+    - (* mechanical *)
+      assert (Hc : decode_difop_common d s b = decode_difop_common d s b').
+      { unfold decode_difop_common. cbv zeta.
+        rewrite (agree_be16 (d_difop_len d) b b' (d_off_difop_rpm d) Hag), (agree_be16 (d_difop_len d) b b' (d_off_difop_fov_start d) Hag),
+                (agree_be16 (d_difop_len d) b b' (d_off_difop_fov_end d) Hag) by lia.
+        destruct (s_angles_ready s); [reflexivity|].
+        rewrite (load_angles_agree Hf (Z.to_nat (d_laser_num d)) 0 [] []) by lia. reflexivity. }
+      rewrite Hc.
+      rewrite (agree_u8 (d_difop_len d) b b' (d_off_difop_return_mode d) Hag), (agree_u8 (d_difop_len d) b b' (d_off_difop_reversal d) Hag) by lia.
+      unfold difop_devinfo. destruct (with_parse && d_has_devinfo d); [|reflexivity].
+      rewrite (agree_slice (d_difop_len d) b b' (d_off_difop_sn d) (d_sn_len d) Hag), (agree_slice (d_difop_len d) b b' (d_off_difop_mac d) 6 Hag),
+              (agree_slice (d_difop_len d) b b' (d_off_difop_top_ver d) 5 Hag), (agree_slice (d_difop_len d) b b' (d_off_difop_bottom_ver d) 5 Hag),
+              (agree_be16 (d_difop_len d) b b' (d_off_difop_vol12 d) Hag) by lia.
+      reflexivity.
+    - (* MEMS *)
+      rewrite (agree_u8 (d_difop_len d) b b' (d_off_difop_return_mode d) Hag) by lia.
+      unfold difop_devinfo. destruct (with_parse && d_has_devinfo d); [|reflexivity].
+      rewrite (agree_slice (d_difop_len d) b b' (d_off_difop_sn d) (d_sn_len d) Hag), (agree_slice (d_difop_len d) b b' (d_off_difop_mac d) 6 Hag),
+              (agree_slice (d_difop_len d) b b' (d_off_difop_top_ver d) 5 Hag), (agree_slice (d_difop_len d) b b' (d_off_difop_bottom_ver d) 5 Hag),
+              (agree_be16 (d_difop_len d) b b' (d_off_difop_vol12 d) Hag) by lia.
+      reflexivity.
+  Qed.
+End Difop.
+
+Definition difop_nonneg_ok (d : desc) : bool :=
+  (0 <=? d_off_difop_rpm d) && (0 <=? d_off_difop_fov_start d) && (0 <=? d_off_difop_fov_end d) && (0 <=? d_off_difop_return_mode d) &&
+  (0 <=? d_off_difop_reversal d) && (0 <=? d_off_difop_sn d) && (0 <=? d_off_difop_mac d) && (0 <=? d_off_difop_top_ver d) &&
+  (0 <=? d_off_difop_bottom_ver d) && (0 <=? d_off_difop_vol12 d) && (0 <=? d_off_difop_vert d) && (0 <=? d_off_difop_horiz d) &&
+  (0 <=? d_off_difop_pitch_cali d) && (0 <=? d_laser_num d) && (0 <=? d_sn_len d) && (d_sn_len d <=? 6).
+Lemma all_descs_difop_ok : forallb difop_nonneg_ok all_descs = true.
+Proof. vm_compute. reflexivity. Qed.
+
+Theorem difop_packet_alone d with_parse s b junk : In d all_descs -> blen b = d_difop_len d ->
+  decode_difop d with_parse s (b ++ junk) = decode_difop d with_parse s b.
+Proof.
+  intros Hin Hlen. pose proof all_descs_difop_ok as H1. pose proof layouts_all as H2.
+  rewrite forallb_forall in H1, H2. specialize (H1 d Hin). specialize (H2 d Hin).
+  apply andb_prop in H2. destruct H2 as [H2 _]. apply andb_prop in H2. destruct H2 as [_ Hl].
+  unfold difop_nonneg_ok in H1. symmetry.
+  apply (difop_footprint d Hl); [lia | rewrite <- Hlen; apply agree_app].
+Qed.
